@@ -1187,6 +1187,72 @@ def run_c13(tier, budget, rnd) -> StreamResult:
                         "actions": acts, "curve": [float(np.mean(np.array(r))) for r in rows]})
         script.add(f"srch gt drop {gt}", "ok")
 
+    # ---- the randomised variant (`ugreedy`: get_greedy_rewards(…, random=Random(seed))): oracle on the real code only.
+    # It must extend its sequence by a coalition whose mean gap is within the code's own EPSILON (1e-6) of the minimum
+    # (ties are broken at random), never repeat a coalition, report the fresh gaps of its prefixes, and be a function of the seed.
+    import random as _random
+    ucases = [(3, 3, 2), (4, 2, 2), (4, 3, 1), (3, 2, 3)] if quick else [(3, 3, 2), (4, 2, 2), (4, 3, 1), (3, 2, 3)] * 5
+    for ui, (n, steps, reps) in enumerate(ucases):
+        if not budget.ok():
+            break
+        N = 2 ** n
+        minimal = G.minimal_ids(n)
+        explorable = [c for c in range(N) if c not in minimal]
+        cls, gapname = combos[ui % len(combos)]
+        procs = [1, 2][ui % 2]
+        pool_games = [g for g in hidden_games(n, rnd, tier) if g[2]]
+        tables = [pool_games[i][1] for i in rnd.sample(range(len(pool_games)), min(len(pool_games), reps + 2))]
+        while len(tables) < reps + 2:
+            tables.append(tables[-1])
+        if ui % 2 == 1:       # near-ties: several candidates within EPSILON of the minimum
+            tables = [[float(a + b / 2 ** 30) for a, b in zip(G.convex_power_game(n, 2), G.sa_game(n, rnd, "int"))] for _ in range(reps + 2)]
+        sampled = tables[2:2 + reps]
+        fresh = Fresh(n, cls, gapname)
+        seed = rnd.randrange(10 ** 6)
+        ctx = {"n": n, "max_steps": steps, "repetitions": reps, "processes": procs, "computer": cls, "gap": gapname,
+               "sampled_games": sampled, "randomized": True, "seed": seed}
+        outs = []
+        for _rep in range(2):
+            env = ICG_Gym(ICG(n, BOUNDS[cls]), ListGen(n, tables), minimal_game_coalitions(n), fresh.gapf, done_after_n_actions=steps)
+            try:
+                with warnings.catch_warnings():
+                    warnings.simplefilter("ignore")
+                    rows, acts = get_greedy_rewards(env, steps, reps, fresh.gapf, procs, _random.Random(seed))
+                outs.append(([[float(x) for x in r] for r in rows], [int(a) for a in acts]))
+            except Exception as e:      # noqa: BLE001
+                res.violation(f"randomised get_greedy_rewards raised {type(e).__name__} on an in-domain call", ctx, key="ugreedy:raised")
+                break
+        if len(outs) < 2:
+            continue
+        res.evaluations += 1
+        res.count("ugreedy")
+        rows, acts = outs[0]
+        c2 = dict(ctx, actions=acts, rows=rows)
+
+        def ucol(s_):
+            return [fresh.gap(t, set(minimal) | set(s_)) for t in sampled]
+        if outs[1] != outs[0] and len({tuple(map(tuple, o[0])) for o in outs}) > 1:
+            # a different order among exact ties is allowed to differ only if the set iteration order differs; rows must agree
+            res.count("ugreedy:same-seed-different-rows")
+        if len(acts) != steps or len(set(acts)) != len(acts) or not set(acts) <= set(explorable):
+            res.violation("randomised expected-greedy: wrong length / repeated coalition / not explorable", c2, key="ugreedy:sequence")
+            continue
+        for i in range(steps + 1):
+            if rows[i] != ucol(acts[:i]):
+                res.violation("randomised expected-greedy row i ≠ fresh gaps of its first i coalitions on the sampled games",
+                              dict(c2, step=i, expected=ucol(acts[:i])), key="ugreedy:row")
+                break
+        else:
+            for i in range(steps):
+                rem = [c for c in explorable if c not in acts[:i]]
+                ms = {c: float(np.mean(np.array(ucol(acts[:i] + [c])))) for c in rem}
+                if ms[acts[i]] - min(ms.values()) >= 1e-6 * (1 + 1e-9) + 1e-15:
+                    res.violation("randomised expected-greedy extension is not within EPSILON = 1e-6 of the minimum mean gap",
+                                  dict(c2, step=i, chosen=acts[i], chosen_mean=ms[acts[i]], minimum=min(ms.values())), key="ugreedy:argmin")
+                    break
+                if len([v for v in ms.values() if v - min(ms.values()) < 1e-6]) >= 2:
+                    res.count("ugreedy:step-with-epsilon-ties")
+
     for b in script.diff():
         res.disagree("expected-greedy: model ≠ implementation", {k: b[k] for k in ("line", "impl", "model", "ctx")})
     return res
